@@ -22,12 +22,14 @@ META = {
             "atom_length/sub_atom/number_codes/number_chars/char_code/atom_codes, format ~d/write, head unification, first-argument "
             "indexing static/dynamic/asserted, assertz+call/retract, findall/copy_term/bb_put copies, op/3 priority, assoc, dif) as "
             "a function of the value alone. TLC checks that every production path yields the intended value in a well-formed "
-            "representation, that the layer-B consumers refine layer A (indexing by raw cell does not: design-level "
-            "counter-example), and enumerates every (value, path, consumer) in the bounds; every vector is replayed on the real "
+            "representation, that the layer-B consumers refine layer A (with the pre-86aa075 index model, keyed by raw cell also "
+            "for boxed arguments, TLC exhibits the design-level counter-example of defect D3), and enumerates every (value, path, "
+            "consumer) in the bounds; every vector is replayed on the real "
             "machine. Bounded-exhaustive conformance on the enumerated values, not proof.",
     "note": "Trusted: TLC, BigInt (validated by MC_BigInt/C01), the placeholder substitution and canonical renderer, the "
             "LeafAnswer projection of the harness. The representation a path produces is not observable through the public API; "
-            "it is the layer-B model's prediction (confirmed indirectly by the indexing defect D3).",
+            "it is the layer-B model's prediction (before /repo commit 86aa075 the indexing consumers failed on the paths the model "
+            "marks boxed; coverage.index_b_model_vs_implementation compares the model's index prediction with every run).",
     "technique": "TLA+ specification (value/representation refinement checked by TLC) + replay of TLC-enumerated vectors",
 }
 
@@ -203,7 +205,8 @@ def run(tier):
     rep.traces = len(results)
     rep.exhaustive = True
     rep.extra["design_level_counterexamples"] = {
-        "what": "layer-B consumers that do not refine layer A in the TLC model (first-argument index keyed by the raw cell)",
+        "what": "(consumer, path) classes whose layer-B model does not refine layer A in the TLC model (none unless "
+                "NumRep!BoxedArgTakesVariablePath is FALSE, the code before /repo commit 86aa075)",
         "consumer_path_classes": len(hdr["design_counterexamples"]),
         "consumers": sorted(set(c for c, _ in hdr["design_counterexamples"]))}
     rep.extra["boxed_small_paths"] = sorted(set(p for _, p in hdr["boxed_small"]))
